@@ -668,11 +668,10 @@ void mmd_assign_line_type(mmd_engine * e, token * line) {
 					case DASH_N:
 					case DASH_M:
 						if (t->type == first_child->type) {
+							// Count the dashes of this token (not the length of
+							// whatever follows it)
+							temp_short += t->len;
 							t = t->next;
-
-							if (t) {
-								temp_short += t->len;
-							}
 						} else {
 							temp_short = 0;
 							t = NULL;
